@@ -37,7 +37,9 @@ static volatile long cell[MAXB];       /* written by body k just before it ends 
 static myth_mutex_t mtx[MAXO]; static myth_cond_t cnd[MAXO]; static myth_barrier_t bar[MAXO];
 static myth_join_counter_t jcs[MAXO]; static myth_uncond_t ucs[MAXO]; static myth_felock_t fes[MAXO];
 static myth_once_t onces[MAXO]; static volatile long shared[MAXO]; static volatile long inside[MAXO];
-static volatile long vars[MAXO]; static myth_key_t keys[MAXO];
+static volatile long vars[MAXO];
+#define MAXK 1100
+static myth_key_t keys[MAXK]; static volatile int cancel_req[MAXB];
 static int bar_n[MAXO], jc_n[MAXO];
 static volatile long bufcnt[MAXO];        /* bounded buffer b: mutex b, cond 2b (not full), cond 2b+1 (not empty), capacity bufcap[b] */
 static long bufcap[MAXO];
@@ -50,6 +52,12 @@ static volatile long produced[MAXO], consumed[MAXO];
 #define UCID(i) VUC(&ucs[i])
 #define ONID(i) VON(&onces[i])
 #define FEID(i) VFE(&fes[i])
+static myth_thread_t self_of[MAXB];
+static int cur_body(void);
+static void dtor1(void *v){ U("U_Dtor", 3, (long)cur_body(), 1L, (long)v); }
+static void dtor2(void *v){ U("U_Dtor", 3, (long)cur_body(), 2L, (long)v); }
+static void dtor3(void *v){ U("U_Dtor", 3, (long)cur_body(), 3L, (long)v); }
+static void (*dtors[4])(void *) = { 0, dtor1, dtor2, dtor3 };
 static void lock_(int k, int m){ U("U_LockCall", 2, (long)k, MXID(m)); myth_mutex_lock(&mtx[m]); U("U_LockRet", 2, (long)k, MXID(m)); }
 static void unlock_(int k, int m){ U("U_UnlockCall", 2, (long)k, MXID(m)); myth_mutex_unlock(&mtx[m]); U("U_UnlockRet", 2, (long)k, MXID(m)); }
 static int trylock_(int k, int m){ int rc; U("U_TryLockCall", 2, (long)k, MXID(m)); rc = myth_mutex_trylock(&mtx[m]); U("U_TryLockRet", 3, (long)k, MXID(m), (long)rc); return rc; }
@@ -68,8 +76,6 @@ static targ_t targs[MAXB];
 
 static long run_ops(int k);
 
-static myth_thread_t self_of[MAXB];
-static int cur_body(void);
 static void once_fn0(void){ U("U_OnceBody", 1, VON(&onces[0])); once_runs[0]++;
   U("U_YieldCall", 2, (long)cur_body(), 0L); myth_yield(); U("U_YieldRet", 1, (long)cur_body());
   U("U_OnceBodyEnd", 1, VON(&onces[0])); }
@@ -79,7 +85,6 @@ static void *body_fn(void *a_){
   targ_t *a = a_; int k = a->k;
   U("U_BodyStart", 2, (long)k, a->tok);
   long v = run_ops(k);   /* plain return; default value 1000 + k, or the operand of RET */
-  self_of[k] = 0;
   cell[k] = 5000 + k;
   U("U_BodyEnd", 3, (long)k, v, 0L);
   return (void *)v;
@@ -89,7 +94,7 @@ static void *body_fn(void *a_){
 static __attribute__((noinline)) void nested_exit(int k, long v, int depth){
   volatile char pad[64]; pad[0] = (char)depth;
   if (depth > 0) { nested_exit(k, v, depth - 1); pad[1] = pad[0]; return; }
-  cell[k] = 5000 + k; self_of[k] = 0;
+  cell[k] = 5000 + k;
   U("U_BodyEnd", 3, (long)k, v, 1L);
   myth_exit((void *)v);
 }
@@ -120,14 +125,14 @@ static void do_create(int k, op_t *o){
 static int cur_body(void){ int i; myth_thread_t me_ = myth_self(); for (i = 0; i < MAXB; i++) if (self_of[i] == me_) return i; return 0; }
 static long run_ops(int k){
   body_t *b = &bodies[k]; int i;
-  self_of[k] = myth_self();
+  { int j_; myth_thread_t me_ = myth_self(); for (j_ = 0; j_ < MAXB; j_++) if (self_of[j_] == me_) self_of[j_] = 0; self_of[k] = me_; }
   for (i = 0; i < b->n; i++){
     op_t *o = &b->ops[i];
     switch (o->op){
     case OP_END: return 1000 + k;
     case OP_CR: do_create(k, o); break;
     case OP_JN: { void *r = 0; U("U_JoinCall", 2, (long)k, (long)o->a);
-      myth_join(handle[o->a], &r);
+      myth_join(handle[o->a], &r); self_of[o->a] = 0;
       U("U_JoinRet", 4, (long)k, (long)o->a, (long)r, cell[o->a]); break; }
     case OP_TJ: { void *r = 0; int rc;
       /* tryjoin until it succeeds, yielding in between (a = target, b = max attempts, 0 = unbounded) */
@@ -190,6 +195,21 @@ static long run_ops(int k){
               consumed[u]++; break; } }
           else if (__sync_bool_compare_and_swap(&ucw[u], old, old | 2)){ U("U_UcWaitCall", 2, (long)k, UCID(u)); myth_uncond_wait(&ucs[u]); U("U_UcWaitRet", 2, (long)k, UCID(u)); } }
         break; }
+    case OP_KCREATE: { int rc; myth_key_t kk = -1; /* a = slot, b = destructor id (0 none) */
+        U("U_KeyCreateCall", 2, (long)k, (long)o->b); rc = myth_key_create(&kk, dtors[o->b & 3]);
+        if (rc == 0) keys[o->a] = kk; U("U_KeyCreateRet", 3, (long)k, (long)rc, (long)(rc == 0 ? kk : -1)); break; }
+    case OP_KDELETE: { int rc; long kk = o->b ? o->c : keys[o->a];   /* b = 1: raw key index in c */
+        U("U_KeyDeleteCall", 2, (long)k, kk); rc = myth_key_delete((myth_key_t)kk); U("U_KeyDeleteRet", 3, (long)k, kk, (long)rc); break; }
+    case OP_KSET: { int rc; long kk = o->c ? o->a : keys[o->a];      /* c = 1: raw key index in a; value b (0 = NULL) */
+        rc = myth_setspecific((myth_key_t)kk, (void *)(long)o->b); U("U_SetSpecific", 4, (long)k, kk, (long)o->b, (long)rc); break; }
+    case OP_KGET: { void *v; long kk = o->c ? o->a : keys[o->a];
+        v = myth_getspecific((myth_key_t)kk); U("U_GetSpecific", 3, (long)k, kk, (long)v); break; }
+    case OP_CANCEL: U("U_CancelCall", 2, (long)k, (long)o->a); myth_cancel(handle[o->a]); cancel_req[o->a] = 1; U("U_CancelRet", 2, (long)k, (long)o->a); break;
+    case OP_TESTCANCEL: /* poll until cancelled (never returns normally) */
+      for (;;){
+        U("U_TestCancelCall", 1, (long)k); myth_testcancel(); U("U_TestCancelRet", 1, (long)k);
+        yield_(k, myth_yield_option_local_first); }
+      break;
     case OP_ONCE: U("U_OnceCall", 2, (long)k, ONID(o->a)); myth_once(&onces[o->a], o->a == 0 ? once_fn0 : once_fn1); U("U_OnceRet", 2, (long)k, ONID(o->a)); break;
     case OP_FEWL: /* a = felock, b = status to wait for; c = 1: consume (count), 2: produce */
       U("U_FeWaitLockCall", 5, (long)k, FEID(o->a), (long)o->b, VMX(fes[o->a].mutex), VCV(&fes[o->a].cond[o->b]));
@@ -205,7 +225,6 @@ static long run_ops(int k){
     default: fprintf(stderr, "mythprog: unknown op %d\n", o->op); exit(2);
     }
   }
-  self_of[k] = 0;
   return 1000 + k;
 }
 
